@@ -66,8 +66,19 @@ impl BlockRegModel {
         ensures final(self).registered@ == old(self).registered@.remove((db, conn_id)),
     { unimplemented!() }
 }
-pub struct PubSubStub { pub g: Ghost<int> }
-impl PubSubStub { #[verifier::external_body] pub fn unsubscribe_all(&mut self, id: u64) -> (r: Result<()>) { unimplemented!() } }
+/// MODEL of the pub/sub manager for disconnect handling: the connections that hold at least one subscription (pubsub.rs: the
+/// key set of `connections`, the conn -> SubscriberInfo map)
+pub struct PubSubStub { pub subs: Ghost<Set<u64>> }
+impl PubSubStub {
+    /// ASSUMED CONTRACT (pubsub.rs PubSubManager::unsubscribe_all: takes the connection out of every channel and pattern set
+    /// (its two loop bodies are under contract in c14_pubsub: unsub_all_channel_step / unsub_all_pattern_step) and ends with
+    /// `conn_subs.remove(&connection_id)`; the HashMap::iter_mut loops themselves have no vstd specification)
+    #[verifier::external_body]
+    pub fn unsubscribe_all(&mut self, id: u64) -> (r: Result<()>) ensures final(self).subs@ == old(self).subs@.remove(id), { unimplemented!() }
+    /// ASSUMED CONTRACT (pubsub.rs PubSubManager::is_subscribed: `conn_subs.contains_key(&connection_id)`)
+    #[verifier::external_body]
+    pub fn is_subscribed(&self, id: u64) -> (r: bool) ensures r == self.subs@.contains(id), { unimplemented!() }
+}
 pub struct MonitorStub { pub g: Ghost<int> }
 impl MonitorStub { #[verifier::external_body] pub fn unsubscribe(&mut self, id: u64) -> (r: Result<()>) { unimplemented!() } }
 pub struct RemovedConn { pub addr: u64 }
@@ -89,6 +100,17 @@ pub uninterp spec fn peer_gone(c: Connection) -> bool;
 impl Connection {
     #[verifier::external_body]
     pub fn peer_closed(&self) -> (r: bool) ensures r == peer_gone(*self), { unimplemented!() }
+}
+/// `a == b` on ConnectionState (#[derive(PartialEq)], dropped by R4; R7 operator site)
+#[verifier::external_body]
+pub fn verif_state_eq(a: &ConnectionState, b: &ConnectionState) -> (r: bool) ensures r == (*a == *b), { unimplemented!() }
+impl Connection {
+//@@ unit is_closing fn src/network/connection.rs Connection::is_closing
+//@@   rewrite R7 "self.state == ConnectionState::Closing" verif_state_eq byref
+    pub fn is_closing(&self) -> (r: bool)
+        ensures r == (self.state is Closing),
+//@@ body
+//@@ end
 }
 pub struct Server { pub storage: ListModel, pub connections: ConnModel, pub blocking_manager: BlockRegModel, pub pubsub: PubSubStub, pub monitor_subscribers: MonitorStub }
 
@@ -160,7 +182,20 @@ impl Server {
 //@@ body
 //@@ end
 
-// step 2: a connection that cleanup_connections removes leaves no registration in any database's blocking registry
+// step 2a (C13 and C14 "after ... disconnecting a client receives nothing more"): EVERY connection in the Closing state is
+// selected for removal — whether or not it still holds subscriptions — and no other connection is
+//@@ unit cleanup_select_step loopbody src/network/server.rs Server::cleanup_connections "for id in self.connections.all_connection_ids()"
+//@@   rewrite R3
+//@@   rewrite? RT "continue;" "return;"
+//@@   rewrite RCT "conn.is_closing()" "bool" "*final(conn) == *old(conn) && cr == (old(conn).state is Closing)"
+    fn cleanup_select_step(&mut self, id: u64, to_remove: &mut Vec<u64>)
+        ensures
+            final(self).connections.map@ =~= old(self).connections.map@, final(self).pubsub == old(self).pubsub, final(self).blocking_manager == old(self).blocking_manager, final(self).storage == old(self).storage,
+            final(to_remove)@ == (if old(self).connections.map@.contains_key(id) && old(self).connections.map@[id].state is Closing { old(to_remove)@.push(id) } else { old(to_remove)@ }),
+//@@ body
+//@@ end
+
+// step 2b: a connection that cleanup_connections removes leaves no registration in any database's blocking registry and no subscription
 //@@ unit cleanup_step loopbody src/network/server.rs Server::cleanup_connections "for id in to_remove"
 //@@   rewrite R3
 //@@   rewrite RFOR 0 it
@@ -170,10 +205,12 @@ impl Server {
 //@@|         it.history@ =~= it.seq().take(it.index@),
 //@@|         forall|d: usize| d < it.index@ ==> !self.blocking_manager.registered@.contains((d, id)),
 //@@|         forall|d: usize, c: u64| c != id ==> (self.blocking_manager.registered@.contains((d, c)) <==> old(self).blocking_manager.registered@.contains((d, c))),
-//@@|         self.connections.map@ == old(self).connections.map@.remove(id),
+//@@|         self.connections.map@ == old(self).connections.map@.remove(id), self.pubsub == old(self).pubsub,
     fn cleanup_step(&mut self, id: u64)
         ensures
             !final(self).connections.map@.contains_key(id),
+            old(self).connections.map@.contains_key(id) ==> final(self).pubsub.subs@ == old(self).pubsub.subs@.remove(id),
+            !old(self).connections.map@.contains_key(id) ==> final(self).pubsub == old(self).pubsub,
             old(self).connections.map@.contains_key(id) ==> forall|d: usize| d < spec_db_count() ==> !final(self).blocking_manager.registered@.contains((d, id)),
             forall|d: usize, c: u64| c != id ==> (final(self).blocking_manager.registered@.contains((d, c)) <==> old(self).blocking_manager.registered@.contains((d, c))),
 //@@ body
